@@ -193,12 +193,17 @@ theorem vadd_smul_zero (xc d : Vec K) (h : d.length = xc.length) : vadd xc (smul
     rw [getD_vzip _ _ _ _ j hj' (by simp [h, hj']), getD_map _ _ _ j (by rw [h]; exact hj')]
     ring
 
-theorem subspace_spec (i : SubIn K) (n k : Nat) (Mm Minvm : Matrix (Fin k) (Fin k) K) (h : SubCtx i n k Mm Minvm) :
+/-- what the specification says of the model's output -/
+def SubSpec (i : SubIn K) (n k : Nat) (Mm : Matrix (Fin k) (Fin k) K) : Prop :=
     (∀ r, maskF n (subMask i) r = false → vec n (subD i) r = 0) ∧
     (∀ r, maskF n (subMask i) r = true →
       (vec n i.g + bmat i.theta (wmat n k i.W) Mm *ᵥ ((vec n i.xc - vec n i.x) + vec n (subD i))) r = 0) ∧
     (subD i).length = n ∧
-    ∃ al, 0 ≤ al ∧ al ≤ 1 ∧ subspaceMin i = vadd i.xc (smul al (subD i)) ∧ InBoxF i.lb i.ub (subspaceMin i) := by
+    ∃ al, 0 ≤ al ∧ al ≤ 1 ∧ subspaceMin i = vadd i.xc (smul al (subD i)) ∧ InBoxF i.lb i.ub (subspaceMin i)
+
+theorem subspace_spec (i : SubIn K) (n k : Nat) (Mm Minvm : Matrix (Fin k) (Fin k) K) (h : SubCtx i n k Mm Minvm) :
+    SubSpec i n k Mm := by
+  unfold SubSpec
   obtain ⟨hll, hul⟩ := inBoxF_lengths h.box
   have hml : (subMask i).length = n := by
     unfold subMask; rw [C09.freeMask_length i.xc i.lb i.ub hll hul, h.hxc]
@@ -254,6 +259,88 @@ theorem subspace_spec (i : SubIn K) (n k : Nat) (Mm Minvm : Matrix (Fin k) (Fin 
     have e2 := hnewt r hr
     simp only [Pi.add_apply] at e1 ⊢
     rw [← e1, e2]
+    ring
+  · rw [subspaceMin_eq]
+    split
+    · refine ⟨0, le_refl _, zero_le_one, (vadd_smul_zero i.xc (subD i) (by rw [hDl, h.hxc])).symm, h.box⟩
+    · have hshape : subD i = ((subD0 i).zip (subMask i)).map fun (p : K × Bool) => if p.2 then p.1 else 0 := rfl
+      obtain ⟨hin, hle1⟩ := C09.alpha_star_feasible i.xc (subD0 i) i.lb i.ub (subMask i) h.box
+        (by rw [hD0l, h.hxc]) (by rw [hml, h.hxc])
+        (alphaStar i.xc (subD i) i.lb i.ub (subMask i))
+        (alphaStar_nonneg i.xc (subD i) i.lb i.ub (subMask i) h.box) (by rw [hshape])
+      rw [← hshape] at hin hle1
+      refine ⟨_, alphaStar_nonneg i.xc (subD i) i.lb i.ub (subMask i) h.box, hle1, ?_, ?_⟩
+      · exact clip_of_inBox (C11.inBox_of_inBoxF hin)
+      · rw [clip_of_inBox (C11.inBox_of_inBoxF hin)]; exact hin
+
+
+/-- the same for an empty memory (`use_factor = False`: `B = θI`, nothing is solved) -/
+structure SubCtx0 (i : SubIn K) (n k : Nat) : Prop where
+  hx : i.x.length = n
+  hg : i.g.length = n
+  hxc : i.xc.length = n
+  hW : i.W.length = n
+  hrow : ∀ r, r < n → (i.W.getD r []).length = k
+  box : InBoxF i.lb i.ub i.xc
+  hθ : i.theta ≠ 0
+  uf : i.useFactor = false
+
+theorem subspace_spec0 (i : SubIn K) (n k : Nat) (h : SubCtx0 i n k) :
+    SubSpec i n k (0 : Matrix (Fin k) (Fin k) K) := by
+  unfold SubSpec
+  obtain ⟨hll, hul⟩ := inBoxF_lengths h.box
+  have hml : (subMask i).length = n := by
+    unfold subMask; rw [C09.freeMask_length i.xc i.lb i.ub hll hul, h.hxc]
+  have hr0l : (vadd i.g (smul i.theta (vsub i.xc i.x))).length = n := by
+    simp [vadd, vsub, smul, vzip_length', h.hg, h.hxc, h.hx]
+  have hufn : ¬ i.useFactor = true := by rw [h.uf]; simp
+  have hRl : (subR i).length = n := by
+    unfold subR; dsimp only; rw [if_neg hufn]; exact hr0l
+  have hB : ∀ a : Fin n → K, bmat i.theta (wmat n k i.W) (0 : Matrix (Fin k) (Fin k) K) *ᵥ a = i.theta • a := by
+    intro a
+    rw [bmat_mulVec, zero_mulVec, mulVec_zero, sub_zero]
+  have hR : vec n (subR i) = vec n i.g + bmat i.theta (wmat n k i.W) (0 : Matrix (Fin k) (Fin k) K) *ᵥ (vec n i.xc - vec n i.x) := by
+    unfold subR; dsimp only; rw [if_neg hufn]
+    rw [vec_vadd n _ _ h.hg (by simp [smul, vsub, vzip_length', h.hxc, h.hx]),
+      vec_smul n _ _ (by simp [vsub, vzip_length', h.hxc, h.hx]), vec_vsub n _ _ h.hxc h.hx, hB]
+  have hRHat : vec n (subRHat i) = C09.maskVec (maskF n (subMask i)) (vec n (subR i)) :=
+    vec_mask n (subR i) (subMask i) hRl hml
+  have hRHatl : (subRHat i).length = n := by simp [subRHat, hRl, hml]
+  have hWzl := subWz_length i n h.hW hml
+  have hV : subV i = (subV0 i).map fun _ => (0 : K) := by unfold subV; rw [if_neg hufn]
+  have hZ0 : vec n ((subWz i).map fun row => dot row (subV i)) = 0 := by
+    funext r
+    have hr : (r : Nat) < (subWz i).length := by rw [hWzl]; exact r.2
+    simp only [vec, Pi.zero_apply]
+    rw [getD_map' (subWz i) (fun row => dot row (subV i)) r hr, hV, dot_zeros]
+  have hZl : ((subWz i).map fun row => dot row (subV i)).length = n := by simp [hWzl]
+  have hD0 : vec n (subD0 i) = -(1 / i.theta) • C09.maskVec (maskF n (subMask i)) (vec n (subR i)) := by
+    have := vec_subD0 i n (subRHat i) _ hRHatl hZl
+    rw [hRHat, hZ0, smul_zero, add_zero] at this
+    exact this
+  have hD0l : (subD0 i).length = n := by simp [subD0, hRHatl, hZl]
+  have hz : ∀ r, maskF n (subMask i) r = false → vec n (subD0 i) r = 0 := by
+    intro r hr
+    rw [hD0]
+    simp [C09.maskVec, hr]
+  have hD : vec n (subD i) = vec n (subD0 i) := by
+    have := vec_mask n (subD0 i) (subMask i) hD0l hml
+    show vec n (((subD0 i).zip (subMask i)).map fun (p : K × Bool) => if p.2 then p.1 else 0) = _
+    rw [this]
+    funext r
+    simp only [C09.maskVec]
+    cases hm : maskF n (subMask i) r with
+    | true => simp
+    | false => simp [hz r hm]
+  have hDl : (subD i).length = n := by simp [subD, hD0l, hml]
+  refine ⟨fun r hr => by rw [hD]; exact hz r hr, ?_, hDl, ?_⟩
+  · intro r hr
+    rw [hD, mulVec_add, ← add_assoc]
+    have e1 := congrFun hR r
+    simp only [Pi.add_apply] at e1 ⊢
+    rw [← e1, hB, hD0]
+    simp only [Pi.smul_apply, smul_eq_mul, C09.maskVec, hr, if_true]
+    field_simp [h.hθ]
     ring
   · rw [subspaceMin_eq]
     split
